@@ -33,7 +33,8 @@ def norm_ok(index, old_len):
         s = index
         return (type(s.start) is int and type(s.stop) is int and type(s.step) is int
                 and 0 <= s.start < s.stop <= old_len and s.step >= 2)
-    return type(index) is int and index >= 0
+    # an int index denotes a position of the pre-operation snapshot: 0 <= index <= old length
+    return type(index) is int and 0 <= index <= old_len
 
 
 def replay(snapshot, index, removed, added):
